@@ -132,11 +132,21 @@ def counter_options(draw):
     return out
 
 
+def res_format(opts, r):
+    """The format resource r is written in: the forced one, or (force_format=False) the extension of its path."""
+    import os
+    if opts.get('force_format', True):
+        return opts['format']
+    return os.path.splitext(r.get('path') or (r['name'] + '.csv'))[1][1:]
+
+
 def build_dumper(dataflows, opts, out_dir):
     """-> (step, location): a fresh dump_to_path / dump_to_zip step writing into out_dir."""
     import os
     kw = {}
-    if opts['format'] != 'csv':
+    if not opts.get('force_format', True):
+        kw['force_format'] = False
+    elif opts['format'] != 'csv':
         kw['format'] = opts['format']
     if opts['add_filehash_to_path']:
         kw['add_filehash_to_path'] = True
